@@ -1073,6 +1073,11 @@ def c13(tier, seed):
         "custom_cleanup_errorf": lambda: [draw(g("Custom", elem=g("Int8"), body=[draw(g("Byte"), "y", "y"),
                                                                                   op("cleanup", body=[iff("y", "ge", 100, [op("errorf", text="late")])])]), "c")],
         "custom_errorf": lambda: [draw(g("Custom", elem=g("Int8"), body=[draw(g("Byte"), "y", "y"), iff("y", "ge", 100, [op("errorf", text="in custom")])]), "c")],
+        # ... unconditionally: every input that is not exhausted fails
+        "custom_cleanup_errorf_always": lambda: [draw(g("Custom", elem=g("Int8"), body=[draw(g("Byte"), "y"), op("cleanup", body=[op("errorf", text="late")])]), "c"),
+                                                 draw(g("Bool"), "after")],
+        "custom_errorf_always": lambda: [draw(g("Custom", elem=g("Int8"), body=[op("error0"), draw(g("Byte"), "y")]), "c"), draw(g("Bool"), "after")],
+        "cleanup_fail_always": lambda: [draw(g("Byte"), "x"), op("cleanup", body=[op("fail")]), op("cleanup", body=[op("ctx")]), draw(g("Bool"), "b")],
         "cleanup_errorf": lambda: [draw(g("Byte"), "x", "x"), op("cleanup", body=[iff("x", "ge", 100, [op("errorf", text="cleanup")])]), draw(g("Bool"), "b")],
         "errorf_then_custom": lambda: [draw(g("Byte"), "x", "x"), iff("x", "ge", 100, [op("errorf", text="early")]), draw(g("Custom", elem=g("Int8"), body=[]), "c")],
         # several cleanups, a later-registered one fails / skips / draws (and so panics when the input is exhausted) while earlier ones are pending
